@@ -194,6 +194,12 @@ func SessionNext(rc *RunCtx) *Step {
 			return &Step{Op: "restart"}
 		case "cache_purge":
 			return &Step{Op: "cache", Flag: "purge"}
+		case "rebuild":
+			st := &Step{Op: "rebuild"}
+			if r.IntN(2) == 0 {
+				st.Flag = "purge"
+			}
+			return st
 		case "undo", "redo":
 			if sd == nil {
 				continue
